@@ -59,6 +59,10 @@ class Trace(object):
         self.world.log('CB', self.tag, name)
 
 
+BY_ADDR = ('198.51.100.99', 9999)
+BY_SENDER = 'bystander@other.example'
+
+
 def _apply(reply, verdict):
     if verdict:
         reply.code = str(verdict)
@@ -70,7 +74,18 @@ def make_classes(trace, verdicts, queue_results=None):
     SmtpEdge, SmtpSession, SmtpValidators, QueueError, Reply = _imports()
     counts = {}
 
-    def verdict(kind):
+    trace.by = Trace(trace.world, trace.tag + '-by')
+
+    def tr(session):
+        # a bystander session on the same edge is recorded apart and gets
+        # no scripted verdicts
+        return trace.by if getattr(session, 'address', None) == BY_ADDR \
+            else trace
+
+    def verdict(kind, session=None):
+        if session is not None and getattr(session, 'address',
+                                           None) == BY_ADDR:
+            return None
         n = counts.get(kind, 0)
         counts[kind] = n + 1
         lst = verdicts.get(kind) or ()
@@ -78,110 +93,111 @@ def make_classes(trace, verdicts, queue_results=None):
 
     class V(SmtpValidators):
         def handle_banner(self, reply, address):
-            _apply(reply, verdict('banner'))
+            _apply(reply, verdict('banner', self.session))
 
         def handle_ehlo(self, reply, ehlo_as):
-            _apply(reply, verdict('ehlo'))
+            _apply(reply, verdict('ehlo', self.session))
 
         def handle_helo(self, reply, helo_as):
-            _apply(reply, verdict('helo'))
+            _apply(reply, verdict('helo', self.session))
 
         def handle_auth(self, reply, creds):
-            trace.add('v_auth', getattr(creds, 'authcid', None),
+            tr(self.session).add('v_auth', getattr(creds, 'authcid', None),
                       getattr(creds, 'authzid', None),
                       self.session.security == 'TLS')
-            trace.creds.append(creds)
-            _apply(reply, verdict('auth'))
+            tr(self.session).creds.append(creds)
+            _apply(reply, verdict('auth', self.session))
 
         def handle_mail(self, reply, sender, params):
-            _apply(reply, verdict('mail'))
+            _apply(reply, verdict('mail', self.session))
 
         def handle_rcpt(self, reply, rcpt, params):
-            _apply(reply, verdict('rcpt'))
+            _apply(reply, verdict('rcpt', self.session))
 
         def handle_data(self, reply):
-            _apply(reply, verdict('data'))
+            _apply(reply, verdict('data', self.session))
 
         def handle_have_data(self, reply, data):
-            _apply(reply, verdict('have_data'))
+            _apply(reply, verdict('have_data', self.session))
 
         def handle_queued(self, reply, results):
-            _apply(reply, verdict('queued'))
+            _apply(reply, verdict('queued', self.session))
 
     trace.creds = []
+    trace.by.creds = []
 
     class S(SmtpSession):
         def _tls(self):
             return self.security == 'TLS'
 
         def BANNER_(self, reply):
-            trace.add('BANNER', self._tls())
+            tr(self).add('BANNER', self._tls())
             SmtpSession.BANNER_(self, reply)
-            trace.add('=', reply.code)
+            tr(self).add('=', reply.code)
 
         def EHLO(self, reply, ehlo_as):
-            trace.add('EHLO', ehlo_as, self._tls())
+            tr(self).add('EHLO', ehlo_as, self._tls())
             SmtpSession.EHLO(self, reply, ehlo_as)
-            trace.add('=', reply.code)
+            tr(self).add('=', reply.code)
 
         def HELO(self, reply, helo_as):
-            trace.add('HELO', helo_as, self._tls())
+            tr(self).add('HELO', helo_as, self._tls())
             SmtpSession.HELO(self, reply, helo_as)
-            trace.add('=', reply.code)
+            tr(self).add('=', reply.code)
 
         def TLSHANDSHAKE2(self, ssl_socket):
-            trace.add('TLS')
+            tr(self).add('TLS')
             SmtpSession.TLSHANDSHAKE2(self, ssl_socket)
 
         def AUTH(self, reply, creds):
-            trace.add('AUTH', self._tls())
+            tr(self).add('AUTH', self._tls())
             SmtpSession.AUTH(self, reply, creds)
-            trace.add('=', reply.code)
-            trace.add('authattr', self.auth)
+            tr(self).add('=', reply.code)
+            tr(self).add('authattr', self.auth)
 
         def RSET(self, reply):
-            trace.add('RSET', self._tls())
+            tr(self).add('RSET', self._tls())
             SmtpSession.RSET(self, reply)
-            _apply(reply, verdict('rset'))
-            trace.add('=', reply.code)
+            _apply(reply, verdict('rset', self))
+            tr(self).add('=', reply.code)
 
         def NOOP(self, reply):
-            trace.add('NOOP', self._tls())
+            tr(self).add('NOOP', self._tls())
 
         def QUIT(self, reply):
-            trace.add('QUIT', self._tls())
+            tr(self).add('QUIT', self._tls())
 
         def STARTTLS(self, reply, extensions):
-            trace.add('STARTTLS')
-            _apply(reply, verdict('starttls'))
+            tr(self).add('STARTTLS')
+            _apply(reply, verdict('starttls', self))
 
         def MAIL(self, reply, address, params):
-            trace.add('MAIL', address, tuple(sorted(
+            tr(self).add('MAIL', address, tuple(sorted(
                 (k, v) for k, v in params.items())), self._tls())
             SmtpSession.MAIL(self, reply, address, params)
-            trace.add('=', reply.code)
+            tr(self).add('=', reply.code)
 
         def RCPT(self, reply, address, params):
-            trace.add('RCPT', address, tuple(sorted(
+            tr(self).add('RCPT', address, tuple(sorted(
                 (k, v) for k, v in params.items())), self._tls())
             SmtpSession.RCPT(self, reply, address, params)
-            trace.add('=', reply.code)
+            tr(self).add('=', reply.code)
 
         def DATA(self, reply):
-            trace.add('DATA', self._tls())
+            tr(self).add('DATA', self._tls())
             SmtpSession.DATA(self, reply)
-            trace.add('=', reply.code)
+            tr(self).add('=', reply.code)
 
         def HAVE_DATA(self, reply, data, err):
-            trace.add('HAVE_DATA', data, type(err).__name__ if err else None,
+            tr(self).add('HAVE_DATA', data, type(err).__name__ if err else None,
                       self._tls())
             try:
                 SmtpSession.HAVE_DATA(self, reply, data, err)
             finally:
-                trace.add('=', reply.code)
+                tr(self).add('=', reply.code)
 
         def XMARK(self, reply, arg, server):
-            trace.add('XMARK', arg, self._tls())
+            tr(self).add('XMARK', arg, self._tls())
             reply.code = '250'
             reply.message = '2.0.0 mark ' + (arg or b'').decode(
                 'utf-8', 'replace')
@@ -192,6 +208,11 @@ def make_classes(trace, verdicts, queue_results=None):
 
         def enqueue(self, envelope):
             hdr, body = envelope.flatten()
+            if envelope.sender == BY_SENDER:
+                trace.by.enqueued.append((envelope.sender,
+                                          tuple(envelope.recipients), hdr,
+                                          body))
+                return [(envelope, 'by')]
             trace.enqueued.append((envelope.sender,
                                    tuple(envelope.recipients), hdr, body))
             trace.add('ENQ', envelope.sender, tuple(envelope.recipients),
@@ -276,3 +297,97 @@ def parse_replies(data):
     if cur is not None:
         replies.append((cur[0] + '+partial', cur[1]))
     return replies, leftover
+
+
+BY_LINES = [b'EHLO by.example', b'MAIL FROM:<' + BY_SENDER.encode() + b'>',
+            b'RCPT TO:<x@other.example>', b'RCPT TO:<y@other.example>',
+            b'DATA', b'Subject: bystander\r\n\r\nbystander body\r\n.',
+            b'QUIT']
+BY_CODES = ['220', '250', '250', '250', '250', '354', '250', '221']
+
+
+def start_bystander(world, trace, pace_key='by'):
+    """A second client of the *same* edge object, at the same time: a plain
+    transaction, one command at a time at a seeded pace.  Whatever the main
+    session does, this one must run its course - sessions share no state.
+    Returns a dict filled in as it goes; judge with bystander_verdict()."""
+    from sim.world import H
+    a, b = net.socketpair(world, 'bystander',
+                          a_opts={'latency': net.LAT_SMALL},
+                          b_opts={'latency': net.LAT_SMALL})
+    out = {'codes': [], 'done': False}
+    srv = gevent.spawn(trace.edge.handle, b, BY_ADDR)
+
+    def client():
+        buf = b''
+        k = 0
+
+        def reply():
+            nonlocal buf
+            while True:
+                lines = buf.split(b'\r\n')
+                for i, l in enumerate(lines[:-1]):
+                    if len(l) >= 4 and l[3:4] == b' ':
+                        buf = b'\r\n'.join(lines[i + 1:])
+                        return l[:3].decode('latin1')
+                try:
+                    with gevent.Timeout(60.0):
+                        d = a.recv(4096)
+                except (gevent.Timeout, OSError):
+                    return None
+                if not d:
+                    return None
+                buf += d
+        c = reply()
+        out['codes'].append(c)
+        for line in BY_LINES:
+            if c is None:
+                break
+            k += 1
+            gevent.sleep((0.0, 0.0005, 0.002, 0.006)[
+                H(world.sched_seed, pace_key, k) % 4])
+            try:
+                a.sendall(line + b'\r\n')
+            except OSError:
+                break
+            c = reply()
+            out['codes'].append(c)
+        out['done'] = True
+        try:
+            a.close()
+        except Exception:
+            pass
+    out['greenlet'] = gevent.spawn(client)
+    out['server'] = srv
+    return out
+
+
+def bystander_verdict(world, trace, out, cfg=None):
+    """None, or a description of how the bystander session was disturbed"""
+    world.wait(out['greenlet'], 300.0)
+    world.wait(out['server'], 60.0)
+    ms = (cfg or {}).get('max_size')
+    size = len(BY_LINES[5]) - 1
+    refused = BY_CODES[:6] + ['552', '221']
+    if ms is not None and ms < size + 8:
+        # the edge's own size limit refuses the bystander's message (right
+        # at the limit either answer is taken: the exact boundary is C09's
+        # subject, not this check's)
+        if out['codes'] == refused and not trace.by.enqueued:
+            return None
+        if ms <= size - 8:
+            return ('a plain transaction run at the same time on the same '
+                    'edge (size limit %d) was answered %r, expected %r; '
+                    'queued %d' % (ms, out['codes'], refused,
+                                   len(trace.by.enqueued)))
+    if out['codes'] != BY_CODES:
+        return ('a plain transaction run at the same time on the same edge '
+                'was answered %r, expected %r' % (out['codes'], BY_CODES))
+    enq = trace.by.enqueued
+    want_r = ('x@other.example', 'y@other.example')
+    if len(enq) != 1 or enq[0][0] != BY_SENDER or enq[0][1] != want_r or \
+            b'bystander body' not in enq[0][3]:
+        return ('the message of a transaction run at the same time on the '
+                'same edge reached the queue as %r' % (
+                    [(e[0], e[1], e[3][:40]) for e in enq],))
+    return None
